@@ -446,6 +446,6 @@ pub fn run_history(h: Arc<History>, checks: Checks, stop_at_first: bool) -> Hist
     match r.outcome {
         Outcome::Done(o) => HistResult::Done(o),
         Outcome::Panic(m) => HistResult::Panic(m),
-        Outcome::Deadlock(_) | Outcome::StepBound => HistResult::Blocked,
+        Outcome::Deadlock(_) | Outcome::StepBound | Outcome::Livelock => HistResult::Blocked,
     }
 }
